@@ -16,10 +16,12 @@ var c02Specs = []famSpec{
 	{Family: "rand-dense", Pool: 200000, PoolQ: 12000},
 	{Family: "near-degenerate", Pool: 60000, PoolQ: 4000},
 	{Family: "lattice", Pool: 100000, PoolQ: 8000},
+	{Family: "rand-mid", Pool: 60000, PoolQ: 3000},
+	{Family: "degenerate", Pool: 50000, PoolQ: 2500},
 	{Family: "rand-wide", FreshQ: 4000, FreshT: 200000},
 	{Family: "rectilinear", FreshQ: 3000, FreshT: 100000},
 	{Family: "nested", FreshQ: 1500, FreshT: 50000},
-	{Family: "degenerate", FreshQ: 1500, FreshT: 50000},
+	{Family: "degenerate-wide", FreshQ: 1500, FreshT: 50000},
 	{Family: "big-n", FreshQ: 40, FreshT: 1500},
 }
 
